@@ -43,9 +43,13 @@ int sm3_digest_update(SM3_DIGEST_CTX *ctx, const uint8_t *data, size_t datalen)
 		error_print();
 		return -1;
 	}
-	if (!data || !datalen) {
+	if (!data && datalen) {
 		error_print();
 		return -1;
+	}
+	// hashing zero bytes leaves the state unchanged, as in sm3_update() and sm3_hmac_update()
+	if (!datalen) {
+		return 1;
 	}
 
 	if (ctx->state == 1) {
